@@ -86,7 +86,17 @@ row_case = st.fixed_dictionaries({'item': st.sampled_from(ROW_ITEMS), 'amount': 
                                   'qty': st.integers(0, 3)})
 rows_case = st.fixed_dictionaries({'orders': st.lists(row_case, max_size=4), 'receipts': st.lists(row_case, max_size=3)})
 # a budget without supplemental sources hands the evaluators None or {} (the common case in real use)
-rows_opt = st.one_of(st.none(), st.just({}), rows_case, rows_case)
+def _ragged(rc):
+    # a row that came from a short CSV line lacks its last columns
+    out = {k: [dict(r) for r in v] for k, v in rc.items()}
+    for v in out.values():
+        if len(v) >= 2:
+            v[-1].pop('qty', None)
+            v[-1].pop('date', None)
+    return out
+
+
+rows_opt = st.one_of(st.none(), st.just({}), rows_case, rows_case, rows_case.map(_ragged))
 
 
 def mk_txn(c):
@@ -101,7 +111,7 @@ def mk_txn(c):
 def mk_rows(rc):
     if rc is None:
         return None
-    return {k: [dict(r, date=date.fromisoformat(r['date'])) for r in v] for k, v in rc.items()}
+    return {k: [dict(r, date=date.fromisoformat(r['date'])) if 'date' in r else dict(r) for r in v] for k, v in rc.items()}
 
 
 # ------------------------------------------------------------------------------------------------
